@@ -6,6 +6,8 @@
 -/
 import AuthProofs.StateInventory
 import AuthProofs.Ladder
+import AuthProofs.CodeEquivOidc
+import AuthProofs.CodeEquivCheck
 import AuthProofs.Chain
 import AuthProofs.Redis
 import AuthProofs.RedisPrefix
@@ -68,6 +70,40 @@ example (cfg : Cfg) (o : Oracles) (sid : Str) (t : Tokens) (a : TokAttrs) (now :
 /-- NO HIDDEN STATE: the model treats a check as a function of (configuration, request, store answers, clock, IdP and key-source answers, entropy); that is a faithful reading of the code only if nothing else survives from one check to the next. Regenerated on every run: every package-level variable and struct field of internal/server, internal/authz, internal/http, internal/oidc is the classified expectation, and handlers, filter, HTTP helpers and the Redis store own no mutable state (no verdict cache, handler cache, object pool, single-flight group or per-process copy of session data). -/
 theorem no_hidden_state : CheckPathInventory := check_path_inventory
 
+/-! ### The expiry test and the filter loop as translated from /repo -/
+
+/-- `areRequiredTokensExpired` AS TRANSLATED FROM THE GO SOURCE on this run is the model's `tokensExpired`: the stored
+    tokens count as expired when the ID token's `exp` lies before now, or - with access-token forwarding configured, an
+    access token held and its expiry KNOWN (not the zero time) - when that expiry lies before now; an ID token that does
+    not parse is an error, never "not expired". The fresh branch of `ok_justified` rests on exactly this test. -/
+theorem code_expiry_test (env : Go.Env) (o : Pb.OidcHandler) (t : Pb.TokenResponse) (cfg : Cfg) (a : TokAttrs) (tok : Tokens)
+    (now : Int) (jt : Go.JwtToken)
+    (ho : o.isNil = false) (hc : o.config.isNil = false) (ht : t.isNil = false) (hj : jt.isNil = false)
+    (hexp : jt.exp.unixNano = some a.exp) (hnow : env.now.unixNano = some now)
+    (hacc : cfg.access.isSome = !o.config.GetAccessToken.isNil)
+    (h2 : tok.accessToken = t.AccessToken) (h3 : tok.accessExp = t.AccessTokenExpiresAt.unixNano) :
+    (env.parseTokenOracle t.IDToken = (jt, false) →
+      Code.areRequiredTokensExpired env o t = .ok (tokensExpired cfg a tok now, {})) ∧
+    (∀ jt', env.parseTokenOracle t.IDToken = (jt', true) →
+      Code.areRequiredTokensExpired env o t = .ok (false, { isNil := false })) :=
+  ⟨fun hp => code_tokensExpired env o t cfg a tok now jt ho hc ht hp hj hexp hnow hacc h2 h3,
+   fun jt' hp => code_tokensExpired_unparsable env o t jt' ht hp⟩
+
+/-- On the translated `Check`: a triggered request whose first matching chain has filters is answered with what that
+    chain's filter loop returns, and that loop returns an allowing response only if EVERY filter of the chain allowed
+    (`runFiltersPb` ends in `.ok (r', {})` with all steps `.inr`): see C08 `code_first_match_wins`, `code_all_allow`,
+    `code_stops_at_first_denial`. Here: a handler construction error or a `Process` error gives an error and NO verdict. -/
+theorem code_handler_error_no_verdict (h : Pb.Handlers) (req : Pb.CheckRequest) (f : Pb.Filter) (o : Pb.Filter_Oidc)
+    (r : Pb.CheckResponse) (post : List Pb.Filter)
+    (hf : f.isNil = false) (hty : f.Type_ = .Oidc o) (herr : (h.newOIDC o.Oidc).2.isNil = false) :
+    runFiltersPb h req (f :: post) r = .ok ({ isNil := true }, (h.newOIDC o.Oidc).2) := by
+  simp [runFiltersPb, filterStepPb, hf, hty, herr]
+
+example : Code.areRequiredTokensExpired { parseTokenOracle := fun _ => ({ exp := ⟨some 100⟩ }, false), now := ⟨some 101⟩ }
+    { config := {} } { IDToken := B "x" } = .ok (true, {}) := by decide
+example : Code.areRequiredTokensExpired { parseTokenOracle := fun _ => ({ exp := ⟨some 100⟩ }, false), now := ⟨some 100⟩ }
+    { config := { AccessToken := { isNil := false } } } { IDToken := B "x", AccessToken := B "at" } = .ok (false, {}) := by decide
+
 end AuthProps.C01
 
 #print axioms AuthProps.C01.ok_justified
@@ -79,3 +115,5 @@ end AuthProps.C01
 #print axioms AuthProps.C01.chain_ok_needs_all
 #print axioms AuthProps.C01.redis_prefix_safe
 #print axioms AuthProps.C01.no_hidden_state
+#print axioms AuthProps.C01.code_expiry_test
+#print axioms AuthProps.C01.code_handler_error_no_verdict
